@@ -4,6 +4,7 @@ import (
 	"encoding/binary"
 	"fmt"
 	"io"
+	"math"
 )
 
 // RangeNamespaceDataIDV0Size defines the size of the RangeNamespaceDataIDV0Size in bytes,
@@ -22,6 +23,12 @@ func NewRangeNamespaceDataIDV0(
 	rngData, err := NewRangeNamespaceDataID(edsID, from, to, odsSize)
 	if err != nil {
 		return RangeNamespaceDataIDV0{}, err
+	}
+	// V0 encodes indices as uint16: refuse the ones it cannot carry instead of truncating them.
+	if to > math.MaxUint16 {
+		return RangeNamespaceDataIDV0{}, fmt.Errorf(
+			"%w: range [%d, %d) does not fit the 16-bit indices of the V0 encoding", ErrInvalidID, from, to,
+		)
 	}
 	return RangeNamespaceDataIDV0{RangeNamespaceDataID: rngData}, nil
 }
